@@ -22,6 +22,9 @@ pub struct PadCase {
     pub spec: PacketSpec,
     /// base packet from the crate's builder instead of the independent encoder
     pub from_builder: bool,
+    /// SR / RR only: this many words of profile-specific extension (RFC 3550 6.4.3) follow the report blocks
+    #[serde(default)]
+    pub extension_words: u8,
 }
 
 fn strip_padding(v: &mut Value) -> Value {
@@ -32,7 +35,17 @@ pub(crate) fn c13_oracle(c: &PadCase, st: &mut Stats) -> Verdict {
     let name = c.spec.long_name();
     st.label(&name);
     st.label(if c.from_builder { "base from the crate's builder" } else { "base from the reference encoder" });
-    let base = if c.from_builder { build_valid(&c.spec, How::default(), "C13")? } else { ref_encode(&c.spec) };
+    let mut base = if c.from_builder { build_valid(&c.spec, How::default(), "C13")? } else { ref_encode(&c.spec) };
+    if c.extension_words > 0 && matches!(c.spec, PacketSpec::Sr(_) | PacketSpec::Rr(_)) {
+        // a sender / receiver report may carry a profile-specific extension behind its report blocks
+        st.label("SR/RR with a profile-specific extension");
+        for k in 0..4 * c.extension_words as usize {
+            base.push(0xe0 | (k as u8 & 0x0f));
+        }
+        let w = (base.len() / 4 - 1) as u16;
+        base[2] = (w >> 8) as u8;
+        base[3] = w as u8;
+    }
     let mut base_obs = observe_packet(&base).map_err(|f| Failure::new(format!("C13:{name}:base:{}", f.signature), f.detail))?;
     if base_obs.get("error").is_some() {
         st.label("base packet rejected (C09's business); skipped");
@@ -59,13 +72,13 @@ pub(crate) fn c13_oracle(c: &PadCase, st: &mut Stats) -> Verdict {
 }
 
 fn pad_case() -> BoxedStrategy<PadCase> {
-    (gen::leaf_spec(false, false), any::<bool>())
-        .prop_filter_map("unknown packets have no content accessors", |(mut spec, from_builder)| {
+    (gen::leaf_spec(false, false), any::<bool>(), prop_oneof![3 => Just(0u8), 1 => 1u8..=7, 1 => Just(6u8)])
+        .prop_filter_map("unknown packets have no content accessors", |(mut spec, from_builder, extension_words)| {
             if matches!(spec, PacketSpec::Unknown(_)) {
                 return None;
             }
             spec.set_padding(0);
-            Some(PadCase { spec, from_builder })
+            Some(PadCase { spec, from_builder, extension_words })
         })
         .boxed()
 }
@@ -86,7 +99,7 @@ pub fn c13(tier: Tier) -> Check {
                 at: Box::new(|i| {
                     let mut spec = super::build::kind_template((i / 2) as usize);
                     spec.set_padding(0);
-                    PadCase { spec, from_builder: i % 2 == 1 }
+                    PadCase { spec, from_builder: i % 2 == 1, extension_words: 0 }
                 }),
                 oracle: c13_oracle,
                 exhaustive: true,
@@ -97,6 +110,7 @@ pub fn c13(tier: Tier) -> Check {
                 at: Box::new(|i| PadCase {
                     spec: PacketSpec::Bye(ByeSpec { sources: if i >= 256 { vec![1, 2] } else { vec![] }, reason: Some("x".repeat((i % 256) as usize)), padding: 0 }),
                     from_builder: false,
+                    extension_words: 0,
                 }),
                 oracle: c13_oracle,
                 exhaustive: true,
@@ -157,6 +171,8 @@ fn check_nack(n: &Nack, fci: &[u8], st: &mut Stats) -> Verdict {
         st.nontrivial();
     }
     ensure!(got == want, "C15:Nack:entries", "entries() = {got:?}, RFC 4585 decoding of {} = {want:?}", hex(fci));
+    let salt = fci.iter().fold(7u64, |h, x| h.wrapping_mul(0x100_0000_01b3).wrapping_add(*x as u64));
+    no_panic("Nack::entries iterator protocol", || super::common::iter_protocol("Nack::entries", "C15", || n.entries(), |x| x, &want, salt, false))??;
     Ok(())
 }
 
@@ -167,6 +183,8 @@ fn check_fir(f: &Fir, fci: &[u8], st: &mut Stats) -> Verdict {
         st.nontrivial();
     }
     ensure!(got == want, "C15:Fir:entries", "entries() = {got:?}, RFC 5104 decoding of {} = {want:?}", hex(fci));
+    let salt = fci.iter().fold(11u64, |h, x| h.wrapping_mul(0x100_0000_01b3).wrapping_add(*x as u64));
+    no_panic("Fir::entries iterator protocol", || super::common::iter_protocol("Fir::entries", "C15", || f.entries(), |e| (e.ssrc(), e.sequence()), &want, salt, false))??;
     Ok(())
 }
 
@@ -179,6 +197,10 @@ fn check_sli(s: &Sli, fci: &[u8], st: &mut Stats) -> Verdict {
     }
     let want_o: Vec<Option<(u16, u16, u8)>> = want.iter().map(|x| Some(*x)).collect();
     ensure!(got == want_o, "C15:Sli:entries", "lost_macroblocks() = {dbg:?}, RFC 4585 decoding of {} = {want:?}", hex(fci));
+    let salt = fci.iter().fold(13u64, |h, x| h.wrapping_mul(0x100_0000_01b3).wrapping_add(*x as u64));
+    no_panic("Sli::lost_macroblocks iterator protocol", || {
+        super::common::iter_protocol("Sli::lost_macroblocks", "C15", || s.lost_macroblocks(), |e| parse_sli_debug(&format!("{e:?}")), &want_o, salt, false)
+    })??;
     Ok(())
 }
 
